@@ -9,6 +9,22 @@ TB = ("Trusted base: go/types+go/ssa (x/tools v0.29.0) front end, the govc VC ge
       "assumed contracts of external libraries listed per run in the evidence file. ")
 
 CLAIMS = {
+ "C11": dict(
+   technique="contract-based deductive verification: regex language equivalence (SMT RegLan) + accept-iff contracts on every validator over go/ssa, SMT",
+   text=("Proof in two layers. (1) For each of the 31 grammar regular expressions compiled anywhere in /repo, the language of the constant the compiler sees (wrapped as MustCompileAz wraps it) "
+         "equals an independently written specification language (intersections/complements of simple conditions composed as the docs compose them), for all strings. "
+         "(2) Every validator of package input (meta, params, services incl. creation-method rules, getters, calls, fields, duplicate tags, decorators, Validator.Validate) returns nil exactly when the documented conjunction holds; "
+         "todo services are checked for their name only; the loop over the nine service validators is proved to run each of them."),
+   note=("Not covered: diagnostics text and the exact number of reported errors (message texts and counts are opaque), the YAML parser in front of the UnmarshalYAML methods, and the wiring of validators into NewDefaultValidator. "
+         "types.IsPrimitive (reflect) has a trusted contract; reservedGetters (reflect, A10) is an assumed global invariant. Known finding: duplicate getters and the getter 'Container' are accepted. " + TB),
+   design="DESIGN.md section 4 C11"),
+ "C13": dict(
+   technique="contract-based deductive verification: truth-table contract on getter(), defaults of StepCompileMeta, collision lemma over ValidateServiceGetter's contract, SMT",
+   text=("Proof that StepCompileServices.getter implements the property's truth table (getter as configured or empty; must-getter iff getter set and must_getter true or unset with default_must_getter true; explicit must_getter without getter is an error), "
+         "that package/type/constructor names are the configured ones or main/Gontainer/NewGontainer, that ValidateServiceGetter accepts exactly non-reserved Go identifiers without Must prefix / InContext suffix, "
+         "and a lemma that the four method names generated for accepted getters cannot collide with the runtime API or across services via the Must/InContext affixes."),
+   note=("Build-time half only: that body-container-getters.go.tpl emits exactly those methods with those signatures is template text (outside the technique). Known findings (genuine defects, recorded not repaired): equal getters on two services and the getter 'Container' are accepted. " + TB),
+   design="DESIGN.md section 4 C13"),
  "C18": dict(
    technique="contract-based deductive verification: VCs over go/ssa of the real version gate against assumed axioms of x/mod/semver, SMT",
    text=("Proof that ValidateVersion implements the truth table of the property for every (B, V): skipped iff no version is declared or the build is not semver; "
